@@ -34,15 +34,32 @@ def additiveRecv {F : Type} (O : FieldOps F) (h : OTHash F) (VC : List Nat) (l :
 
 /-! ### the masking loops of `AdditiveOTReceiver.Round2`, index by index
 
-additive.go:145–150 masks the bytes of `CombinedPads[i][k]` with
+additive.go masks the bytes of `CombinedPads[i][k]` (after checking `len(CombinedPads) == batchSize`) with
 
-    for j := 0; j < len(msg.CombinedPads[j][k]); j++ { msg.CombinedPads[i][k][j] &= mask }
+    for j := 0; j < len(msg.CombinedPads[i][k]); j++ { msg.CombinedPads[i][k][j] &= mask }
 
-— the loop BOUND reads the length of pad number `j` (the byte counter), not of pad `i`. The
-scalar-level model above is what this loop computes whenever every index is in range; the function
-below is the loop with Go's index checks (`none` = index out of range, i.e. a panic; `some n` = the
-loop ends normally after masking `n` bytes). `lens[p]` is `len(CombinedPads[p][k])`. -/
+The functions below are this loop with Go's index checks (`none` = index out of range, i.e. a panic;
+`some n` = the loop ends normally after masking `n` bytes). `lens[p]` is `len(CombinedPads[p][k])`.
+The scalar-level `additiveRecv` above is what the loop computes when every index is in range —
+which, for the loop as it now stands, is always (`additive_mask_loop_in_range`). -/
 def maskLoopCoded (lens : List Nat) (i : Nat) : Nat → Nat → Option Nat
+  | 0, j => some j
+  | fuel + 1, j =>
+    match lens[i]? with
+    | none => none                                   -- msg.CombinedPads[i] with i ≥ len(CombinedPads)
+    | some li =>
+      if j < li then
+        -- body: msg.CombinedPads[i][k][j] with j < len(msg.CombinedPads[i][k]): in range
+        maskLoopCoded lens i fuel (j + 1)
+      else some j
+
+/-- the loop as it was before fix commit eab5a8f:
+
+        for j := 0; j < len(msg.CombinedPads[j][k]); j++ { msg.CombinedPads[i][k][j] &= mask }
+
+    — the loop BOUND read the length of pad number `j` (the byte counter), not of pad `i`. Kept as the
+    witness of the repaired defect (`additive_mask_loop_range_old`). -/
+def maskLoopCodedOld (lens : List Nat) (i : Nat) : Nat → Nat → Option Nat
   | 0, j => some j
   | fuel + 1, j =>
     match lens[j]? with
@@ -51,7 +68,7 @@ def maskLoopCoded (lens : List Nat) (i : Nat) : Nat → Nat → Option Nat
       if j < lj then
         match lens[i]? with
         | none => none                               -- msg.CombinedPads[i]
-        | some li => if j < li then maskLoopCoded lens i fuel (j + 1) else none   -- …[i][k][j]
+        | some li => if j < li then maskLoopCodedOld lens i fuel (j + 1) else none   -- …[i][k][j]
       else some j
 
 /-! ### the gadget vector and the encoding of β -/
@@ -143,12 +160,18 @@ def mulReceiverRound1 {F : Type} (O : FieldOps F) (h : OTHash F) (rs : CorreRecv
   let (msg, VC) := extReceive h rs gadget.length choices extra
   (choices, msg, VC)
 
-/-- receiver's second round -/
+/-- receiver's second round (the shape checks on the received message, the additive OT, the
+    integrity check; nil message parts are not representable at this level) -/
 def mulReceiverRound2 {F : Type} (O : FieldOps F) (h : OTHash F) (choices : Nat) (U : List Nat) (VC : List Nat)
     (m : MulSendMsg F) : Option F :=
   let gadget := makeGadget O h
-  let result := additiveRecv O h VC gadget.length choices m.combined
-  mulRecvFinish O (h.mchi U) gadget choices m.rCheck m.uCheck result
+  -- multiply.go Round2: `len(msg.RCheck) != len(r.gadget)` ⇒ "malformed message"
+  if m.rCheck.length ≠ gadget.length then none
+  -- additive.go Round2: `len(msg.CombinedPads) != batchSize` ⇒ "incorrect batch size in message"
+  else if m.combined.length ≠ gadget.length then none
+  else
+    let result := additiveRecv O h VC gadget.length choices m.combined
+    mulRecvFinish O (h.mchi U) gadget choices m.rCheck m.uCheck result
 
 /-- one honest multiplication: sender input α (and its second, random pad scalar α₁), receiver
     input β with encoding randomness γ and extended-OT extra choices. Returns both shares. -/
